@@ -328,6 +328,15 @@ impl GraphInline {
                     .map(|inline| inline.normalize(context))
                     .collect(),
             ),
+            // (links inside the alternative text of an image)
+            GraphInline::Image(url, title, inlines) => GraphInline::Image(
+                url.clone(),
+                title.clone(),
+                inlines
+                    .iter()
+                    .map(|inline| inline.normalize(context))
+                    .collect(),
+            ),
             GraphInline::Link(url, title, link_type, inlines) => {
                 if self.is_ref() {
                     let new_inlines = match *link_type {
@@ -384,6 +393,15 @@ impl GraphInline {
             ),
             GraphInline::SmallCaps(emph) => GraphInline::SmallCaps(
                 emph.iter()
+                    .map(|inline| inline.change_key(target_key, updated_key))
+                    .collect(),
+            ),
+            // (links inside the alternative text of an image)
+            GraphInline::Image(url, title, inlines) => GraphInline::Image(
+                url.clone(),
+                title.clone(),
+                inlines
+                    .iter()
                     .map(|inline| inline.change_key(target_key, updated_key))
                     .collect(),
             ),
